@@ -85,6 +85,12 @@ def run(out: common.Outcome, explore: int = 0) -> None:
     quick = out.tier == "quick"
     pool = [r for r in L.load_pool() if has_loop(r["d"])]
     recs = L.select(pool, out.seed, out.tier, explore or 150)
+    # loop-rich family beyond the letter of F (break branches containing loops/forks, two loops after one event):
+    # the shapes of the corpus' loop cases; frozen like the F pool (harness/pool/L.jsonl)
+    import json as _json
+    from pathlib import Path as _Path
+    lpool = [_json.loads(l) for l in (_Path(__file__).resolve().parent / "pool" / "L.jsonl").read_text().splitlines() if l.strip()]
+    recs = recs + L.select(lpool, out.seed + 1, out.tier, 100)
     variants = (0, 4) if quick else (0, 1, 4, 5)
     items = []
     for rec in recs:
@@ -161,7 +167,7 @@ Eval vm_compute in map (fun c => let '(i, s, inp, n) := c in
         "exhaustive": False, "definitions": len(recs), "loop_bearing_pool": len(pool), "detect_loops_calls": len(items),
         "results_with_nested_loops": nested, "failure_kinds": kinds, "failing_keys": failing,
         "evaluations": len(items), "distinct_nontrivial": len({it["rec"]["id"] for it in items}),
-        "rule": "loop-bearing definitions of the frozen F pool (nested loops, breaks, forks inside loops), complete job set with loops run "
+        "rule": "loop-bearing definitions of the frozen F pool (nested loops, breaks, forks inside loops) plus 100 (thorough: 300) definitions of the frozen loop-rich pool L (break branches containing loops/forks, two loops after one event - the corpus' loop-case shapes), complete job set with loops run "
                 "once and twice, presentation/hash-seed variants; graph built exactly as pv_to_puml_string does",
         "trusted_base": common.std_trusted_base(["export of networkx graphs and LoopEvent.sub_graph to Coq terms (node ids per level, "
                                                  "labels: observed type / loop node / dummy)"]),
